@@ -331,7 +331,10 @@ static uintptr_t c_vec_reserve(struct CVecV *v, uintptr_t additional) {
   uint64_t *nb = malloc(ncap * sizeof(uint64_t)); if (v->len) memcpy(nb, v->data, v->len * sizeof(uint64_t)); free(v->data);      /* always MOVES */
   v->data = nb; v->capacity = ncap; v_cur_data = nb; v_cur_cap = ncap; return ncap;
 }
-static void c_vec_drop(void *data, uintptr_t len, uintptr_t cap) { v_drops++; v_drop_data = data; v_drop_len = len; v_drop_cap = cap; free(data); }
+static void c_vec_drop(void *data, uintptr_t len, uintptr_t cap) {
+  if (data != v_cur_data) { fail("c_built_vec:_drop_fn_was_handed_a_buffer_this_side_never_allocated_(a_copy_made_by_rust_carries_the_c_side's_functions)"); return; }
+  v_drops++; v_drop_data = data; v_drop_len = len; v_drop_cap = cap; free(data);
+}
 extern uint64_t rt_vec_rev(struct CVecV v, size_t n, uint64_t base);
 static void k_vec_rev(void) {          /* rows 'init n base' -> checksum of the contents ; reserve_fn runs > 0 ; len handed to drop_fn */
   for (int r = 0; r < nrows; r++) {
